@@ -152,7 +152,7 @@ pub fn replay_needles() -> Option<Vec<String>> {
 }
 impl Sink {
     pub fn create(path: &str) -> Self {
-        Sink { out: std::io::BufWriter::new(std::fs::File::create(path).expect("create out")), seen: HashSet::new(), raw: 0, distinct: 0, limit: u64::MAX, needles: replay_needles() }
+        Sink { out: std::io::BufWriter::new(std::fs::File::create(path).expect("create out")), seen: HashSet::new(), raw: 0, distinct: 0, limit: std::env::var("VF_LIMIT").ok().and_then(|v| v.parse().ok()).unwrap_or(u64::MAX), needles: replay_needles() }
     }
     pub fn put(&mut self, line: String) -> bool {
         self.raw += 1;
@@ -168,12 +168,15 @@ impl Sink {
         if !self.seen.insert((h1.finish(), h2.finish())) {
             return false;
         }
-        if self.distinct >= self.limit {
-            return false;
-        }
         self.distinct += 1;
         self.out.write_all(line.as_bytes()).unwrap();
         self.out.write_all(b"\n").unwrap();
+        if self.distinct >= self.limit {
+            // VF_LIMIT (used by the negative controls of `vf setup`): enough records, stop the whole enumeration
+            self.out.flush().unwrap();
+            println!("{{\"family\":\"limited\",\"raw\":{},\"distinct\":{}}}", self.raw, self.distinct);
+            std::process::exit(0);
+        }
         true
     }
     pub fn finish(mut self) -> (u64, u64) {
